@@ -158,34 +158,31 @@ func (kgdb *KVInterfaceGDB) BulkAdd(stream <-chan *gdbi.GraphElement) error {
 // DelEdge deletes edge with id `key`
 func (kgdb *KVInterfaceGDB) DelEdge(eid string) error {
 	ekeyPrefix := EdgeKeyPrefix(kgdb.graph, eid)
-	var ekey []byte
+	delKeys := make([][]byte, 0, 3)
 	kgdb.kvg.kv.View(func(it kvi.KVIterator) error {
 		for it.Seek(ekeyPrefix); it.Valid() && bytes.HasPrefix(it.Key(), ekeyPrefix); it.Next() {
-			ekey = it.Key()
+			ekey := it.Key()
+			_, _, sid, did, label, etype := EdgeKeyParse(ekey)
+			skey := SrcEdgeKey(kgdb.graph, sid, did, eid, label, etype)
+			dkey := DstEdgeKey(kgdb.graph, sid, did, eid, label, etype)
+			delKeys = append(delKeys, ekey, skey, dkey)
 		}
 		return nil
 	})
 
-	if ekey == nil {
+	if len(delKeys) == 0 {
 		return fmt.Errorf("Edge Not Found")
 	}
 
-	_, _, sid, did, _, _ := EdgeKeyParse(ekey)
-
-	skey := SrcEdgeKeyPrefix(kgdb.graph, sid, did, eid)
-	dkey := DstEdgeKeyPrefix(kgdb.graph, sid, did, eid)
-
-	if err := kgdb.kvg.kv.Delete(ekey); err != nil {
-		return err
-	}
-	if err := kgdb.kvg.kv.Delete(skey); err != nil {
-		return err
-	}
-	if err := kgdb.kvg.kv.Delete(dkey); err != nil {
-		return err
-	}
-	kgdb.kvg.ts.Touch(kgdb.graph)
-	return nil
+	return kgdb.kvg.kv.Update(func(tx kvi.KVTransaction) error {
+		for _, k := range delKeys {
+			if err := tx.Delete(k); err != nil {
+				return err
+			}
+		}
+		kgdb.kvg.ts.Touch(kgdb.graph)
+		return nil
+	})
 }
 
 // DelVertex deletes vertex with id `key`
